@@ -208,8 +208,18 @@ theorem bridge_add_to_store {B : Nat} {pre : Bool} {sup : Nat → Nat} {st : Sto
         bind, Except.bind, pure, Except.pure, dictSetV]
       simp [Store.setRev_rev, Store.setRev_data, setRev_allocsOf, setRev_nblocks, h4]
 
+
+/-- `ResultStoreParallel.preallocate` as written, read sequentially (one thread of control; the
+    interleavings of several workers are the transition system of C06): the block is
+    `range(ptr, ptr + size)` and the shared pointer advances by `size`.  This is what the three
+    theorems above assume of the pre-allocator oracle (`fun k => rng B (sup k)`). -/
+theorem bridge_preallocate (size ptr : Nat) :
+    preallocate size ptr = .ret (rng size ptr, ptr + size) := by
+  simp [preallocate, rng]
+
 #print axioms bridge_allocations
 #print axioms bridge_allocate_next
 #print axioms bridge_add_to_store
 
 end Sk.Gen
+#print axioms Sk.Gen.bridge_preallocate
